@@ -447,6 +447,12 @@ def run_check(pid, tier, base_seed, nproc=None, max_runs=None, write_evidence=Tr
     missing = [p for p in check.required_probes if not agg['probes'].get(p)]
     if missing and tier == 'thorough' and not max_runs:
         harness_msgs.append('probes never hit (workload must change): %r' % missing)
+    elif missing:
+        print('note: probes not hit at this tier/run count: %r' % missing)
+    tripped = [p for p in getattr(check, 'forbidden_probes', ()) if agg['probes'].get(p)]
+    if tripped and not reported and not known_hit:
+        # the harness's own expectations about its scenario did not come true, and no violation explains it
+        harness_msgs.append('scenario self-checks tripped: %r' % dict((p, agg['probes'][p]) for p in tripped))
 
     wall = time.time() - t0
     if write_evidence:
